@@ -298,4 +298,11 @@ theorem gen_multiply_plain_ntt_refuses : type_of% @HC.gc_multiply_plain_ntt_refu
 /-- `multiply_plain_normal` (coefficient-form operands): the ROUTE (monomial shortcut / generic NTT route, with / without the fast plain lift; the
     data steps are codes, the last of the generic route being the FULL inverse transform `intt_ps`) and the CKKS scale rule at both exits -/
 theorem gen_multiply_plain_normal_plan_eq : type_of% @HC.gl_multiply_plain_normal_plan_eq := @HC.gl_multiply_plain_normal_plan_eq
+/-- non-vacuity of the hypothesis bundle of `gen_multiply_plain_ntt_eq`: the example BGV level (two moduli 17, n = 2), a size-2 ciphertext -/
+example : HC.GenC.ct_multiply_plain_ntt (List.replicate 8 3) 2 (List.replicate 4 2) true true HC.c02v_exLevel.qs.toList HC.c02v_exLevel.n .bgv true true =
+    (do let c ← HC.ctMultiplyPlainNtt HC.c02v_exLevel (HC.unflattenCt HC.c02v_exLevel 2 (List.replicate 8 3) true 1)
+                  (HC.unflattenRns HC.c02v_exLevel.size HC.c02v_exLevel.n (List.replicate 4 2))
+        let sc ← HC.mulPlainScaleRule .bgv true
+        pure (HC.flattenCt HC.c02v_exLevel c, sc)) :=
+  HC.gc_multiply_plain_ntt_eq HC.c02v_exLevel _ _ 2 1 .bgv true true (by decide) (by decide) (by decide) (by decide) (by decide)
 end HC.C06
